@@ -356,21 +356,23 @@ func ruleSameStrand(c *Ctx, rule string) {
 	key := "pals.(*PALS).Align/merger-and-filter-see-one-query"
 	var filtered, merged ssa.Value
 	var pos token.Pos
-	for _, b := range fn.Blocks {
-		for _, ins := range b.Instrs {
-			call, ok := ins.(*ssa.Call)
-			if !ok {
-				continue
-			}
-			sf := call.Call.StaticCallee()
-			if sf == nil {
-				continue
-			}
-			switch {
-			case sf.Name() == "Filter" && strings.HasSuffix(funcName(sf), "Filter).Filter"):
-				filtered = call.Call.Args[1]
-			case sf.Name() == "NewMerger":
-				merged, pos = call.Call.Args[1], call.Pos()
+	for _, pf := range privateReach(fn) {
+		for _, b := range pf.Blocks {
+			for _, ins := range b.Instrs {
+				call, ok := ins.(*ssa.Call)
+				if !ok {
+					continue
+				}
+				sf := call.Call.StaticCallee()
+				if sf == nil {
+					continue
+				}
+				switch {
+				case sf.Name() == "Filter" && strings.HasSuffix(funcName(sf), "Filter).Filter"):
+					filtered = callerArg(call.Call.Args[1], fn)
+				case sf.Name() == "NewMerger":
+					merged, pos = callerArg(call.Call.Args[1], fn), call.Pos()
+				}
 			}
 		}
 	}
